@@ -19,6 +19,7 @@ from stone.ir import (
     Void,
     is_list_type,
     is_struct_type,
+    is_tag_ref,
     is_user_defined_type,
 )
 
@@ -39,6 +40,9 @@ _base_type_table = {
 
 
 def fmt_obj(o):
+    if is_tag_ref(o):
+        # A union-typed route attribute: the name of the (void) tag.
+        o = o.tag_name
     if isinstance(o, str):
         # Prioritize single-quoted strings per JS style guides.
         return repr(o).lstrip('u')
